@@ -331,6 +331,7 @@ theorem excPath_rel {cfg : Cfg} (he : cfg.attemptEnd = none) (tl : Bool) {a : Na
   have hatt3 : we3.attempts = a := by rw [n4, m4, k4, hatt]
   rw [bind_run, bind_run, getRS_run, getRS_run]
   simp only
+  rw [π_rs n3]
   apply Sim.bindA (modifyAS_sim _) n3
   intro _ we4 wc4 q1 q2 q3 q4
   have hr4 : wc4.rs = wc3.rs := modifyAS_rs q2
@@ -341,7 +342,7 @@ theorem excPath_rel {cfg : Cfg} (he : cfg.attemptEnd = none) (tl : Bool) {a : Na
     fun _ => ⟨by rw [hr4]; exact f1, e, rfl, by rw [hr4]; exact f2, hp⟩
   by_cases hdr : d.isRaise = true
   · simp only [hdr, if_true]
-    rw [execExceptionPath3_eq, hre4, π_rs n3]
+    rw [execExceptionPath3_eq, hre4]
     exact tail_rel he tl (fr := false) (orig := some e) (fbf := fun _ => default) q3 hatt4
       (fun h => by rw [hr4]; exact f3 h) (fun h => by cases h) hce
   · simp only [hdr]
@@ -350,7 +351,15 @@ theorem excPath_rel {cfg : Cfg} (he : cfg.attemptEnd = none) (tl : Bool) {a : Na
     have hk := (checkAbort_ce cfg false a).ok p2
     have hk1 : wc5.rs.lastCause = wc4.rs.lastCause := congrArg Prod.fst hk
     have hk2 : wc5.rs.lastExc = wc4.rs.lastExc := congrArg Prod.snd hk
-    rw [execExceptionPath3_eq]
-    sorry
+    have hns := (checkAbort_ns cfg false a).ok p2
+    have hk3 : wc5.rs.lastClassification = wc4.rs.lastClassification := by
+      have := congrArg RState.lastClassification hns
+      exact this
+    have hre5 : we5.rs.lastClassification = wc3.rs.lastClassification := by
+      rw [π_rs p3, hk3, hr4]
+    rw [execExceptionPath3_eq, hre5]
+    exact tail_rel he tl (fr := false) (orig := some e) (fbf := fun _ => default) p3 (p4.trans hatt4)
+      (fun h => by subst h; exact absurd rfl hdr) (fun h => by cases h)
+      (fun _ => ⟨by rw [hk1, hr4]; exact f1, e, rfl, by rw [hk2, hr4]; exact f2, hp⟩)
 
 end Redress
